@@ -70,7 +70,7 @@ func genC20(t *rapid.T) C20Case {
 	c := C20Case{F: rapid.IntRange(1, 3).Draw(t, "f"), O: rapid.IntRange(1, 3).Draw(t, "o")}
 	c.W = prog.DrawValsMode(t, c.O, 0, "small")
 	c.B = prog.DrawValsMode(t, c.O, 1, "small")
-	c20Shapes := append(append([][]int{}, prog.HistShapes...), []int{2, 2, 2, 2}, []int{1, 2, 2, 1, 2}, []int{2, 1, 2, 2})
+	c20Shapes := append(append([][]int{}, prog.HistShapes...), []int{2, 2, 2, 2}, []int{1, 2, 2, 1, 2}, []int{2, 1, 2, 2}, []int{24, 24}, []int{1100}, []int{40, 30})
 	ns := rapid.IntRange(2, 5).Draw(t, "nshared")
 	for i := 0; i < ns; i++ {
 		s := rapid.SampledFrom(c20Shapes).Draw(t, "shape")
@@ -95,7 +95,7 @@ func genC20(t *rapid.T) C20Case {
 		if ok {
 			rs, err = prog.ResultShape(n, base.shapes)
 		}
-		if !ok || err != nil || ref.Prod(rs) > 32 || len(rs) > 5 {
+		if !ok || err != nil || ref.Prod(rs) > 2400 || len(rs) > 5 {
 			n = prog.Node{Op: "sumalong", In: []int{n.In[0]}, I: 0}
 			rs, err = prog.ResultShape(n, base.shapes)
 			if err != nil {
@@ -162,7 +162,7 @@ func genC20(t *rapid.T) C20Case {
 				if ok {
 					rs, err = prog.ResultShape(n, m.shapes)
 				}
-				if !ok || err != nil || ref.Prod(rs) > 24 || len(rs) > 5 {
+				if !ok || err != nil || ref.Prod(rs) > 2400 || len(rs) > 5 {
 					n = prog.Node{Op: "sin", In: []int{n.In[0]}}
 					rs, _ = prog.ResultShape(n, m.shapes)
 				}
@@ -208,7 +208,11 @@ func genC20(t *rapid.T) C20Case {
 			case k == 10:
 				x := rapid.SampledFrom(all).Draw(t, "randx")
 				st.Kind, st.X = "rand", x
-				add(m.shapes[x], false, false, true)
+				if len(gp.Steps)%3 == 0 {
+					add([]int{40, 40}, false, false, true)
+				} else {
+					add(m.shapes[x], false, false, true)
+				}
 			default:
 				var cand []int
 				for i := nShared; i < len(m.shapes); i++ {
@@ -365,10 +369,14 @@ func runG(c C20Case, w *c20World, gp GProg) (res gResult) {
 			if !ok {
 				return
 			}
+			rs := x.Shape()
+			if si%3 == 0 {
+				rs = []int{40, 40} // large random tensors may take another path in the library
+			}
 			if si%2 == 0 {
-				y, err = tensor.RandU(x.Shape(), -1, 1, nil)
+				y, err = tensor.RandU(rs, -1, 1, nil)
 			} else {
-				y, err = tensor.RandN(x.Shape(), 0, 1, nil)
+				y, err = tensor.RandN(rs, 0, 1, nil)
 			}
 			rnd = true
 		case "ctor":
@@ -595,12 +603,15 @@ type C20Pair struct {
 	Prov   *prog.Node  `json:"prov,omitempty"`
 	Test   prog.Node   `json:"test"`
 	N      int         `json:"n"`
+	// Reads: instead of Test, every goroutine calls the scalar reducers and accessors of S
+	// (Sum, Max, Min, Avg, Var, Std, Mean, NElems, Shape, At)
+	Reads bool `json:"reads,omitempty"`
 }
 
 func init() { register("C20/pairs", checkC20Pair) }
 
 func genC20Pair(t *rapid.T) C20Pair {
-	shapes := append(append([][]int{}, prog.HistShapes...), []int{2, 2, 2, 2}, []int{1, 2, 2, 1, 2}, []int{2, 1, 2, 2}, []int{2, 1, 1, 2, 1, 2})
+	shapes := append(append([][]int{}, prog.HistShapes...), []int{2, 2, 2, 2}, []int{1, 2, 2, 1, 2}, []int{2, 1, 2, 2}, []int{2, 1, 1, 2, 1, 2}, []int{24, 24}, []int{1100}, []int{40, 30}, []int{33, 2, 9})
 	var c C20Pair
 	nl := rapid.IntRange(1, 3).Draw(t, "nleaves")
 	var sh [][]int
@@ -616,7 +627,7 @@ func genC20Pair(t *rapid.T) C20Pair {
 	if rapid.IntRange(0, 3).Draw(t, "derived") > 0 {
 		n, ok := prog.DrawOp(t, sh, seq(len(sh)), prog.AllOps)
 		if ok {
-			if rs, err := prog.ResultShape(n, sh); err == nil && ref.Prod(rs) <= 64 && len(rs) <= 6 {
+			if rs, err := prog.ResultShape(n, sh); err == nil && ref.Prod(rs) <= 2400 && len(rs) <= 6 {
 				c.Prov = &n
 				sh = append(sh, rs)
 				sid = len(sh) - 1
@@ -637,12 +648,13 @@ func genC20Pair(t *rapid.T) C20Pair {
 		if !uses {
 			continue
 		}
-		if rs, err := prog.ResultShape(n, sh); err == nil && ref.Prod(rs) <= 256 {
+		if rs, err := prog.ResultShape(n, sh); err == nil && ref.Prod(rs) <= 4800 {
 			c.Test = n
 			break
 		}
 	}
 	c.N = rapid.IntRange(2, 4).Draw(t, "goroutines")
+	c.Reads = rapid.IntRange(0, 5).Draw(t, "reads") == 0
 	return c
 }
 
@@ -698,6 +710,7 @@ func checkC20Pair(c C20Pair) *Failure {
 		in[k] = pool[o]
 	}
 	got := make([][]lib.Snapshot, c.N)
+	reads := make([][]float64, c.N)
 	errs := make([]error, c.N)
 	var wg sync.WaitGroup
 	start := make(chan struct{})
@@ -711,6 +724,17 @@ func checkC20Pair(c C20Pair) *Failure {
 				}
 			}()
 			<-start
+			if c.Reads {
+				s := in[0]
+				for _, o := range c.Test.In {
+					if o == len(pool)-1 {
+						s = pool[o]
+					}
+				}
+				s = pool[len(pool)-1]
+				reads[g] = []float64{s.Sum(), s.Max(), s.Min(), s.Avg(), s.Var(), s.Std(), s.Mean(), float64(s.NElems())}
+				return
+			}
 			for rep := 0; rep < 2; rep++ {
 				y, err := prog.ApplyLib(c.Test, in, nil)
 				if err != nil {
@@ -729,6 +753,26 @@ func checkC20Pair(c C20Pair) *Failure {
 	}
 	close(start)
 	wg.Wait()
+	if c.Reads {
+		s := pool[len(pool)-1]
+		want := []float64{s.Sum(), s.Max(), s.Min(), s.Avg(), s.Var(), s.Std(), s.Mean(), float64(s.NElems())}
+		for g := 0; g < c.N; g++ {
+			if errs[g] != nil {
+				return failf("goroutine %d: %v", g, errs[g])
+			}
+			for k := range want {
+				if len(reads[g]) != len(want) || !lib.SameBits(reads[g][k], want[k]) {
+					return failf("goroutine %d: concurrent reducer %d of the shared tensor = %v, sequentially %v", g, k, reads[g], want)
+				}
+			}
+		}
+		evid.Eval()
+		evid.Class("C20.pair_concurrent_reducers")
+		if c.Prov != nil {
+			evid.NonTrivial(c)
+		}
+		return nil
+	}
 	y, err := prog.ApplyLib(c.Test, in, nil)
 	if err != nil {
 		return failf("%s rejected valid operands: %v", c.Test.Op, err)
